@@ -824,13 +824,64 @@ def run(ctx):
 _ORD_CODE = {"Less": 255, "Equal": 0, "Greater": 1}
 
 
+class _Unknown:
+    """A payload whose value the comparison logic does not model (`()`, an error text, …): it can be carried around
+    inside Some / Ok / Err, but nothing can be decided from it."""
+    def __repr__(self):
+        return "?"
+
+
+UNK = _Unknown()
+
+
+class Res:
+    """Value of a `Result` under an assignment: which variant, and its payload."""
+    __slots__ = ("ok", "v")
+
+    def __init__(self, ok, v):
+        self.ok, self.v = bool(ok), v
+
+    def __eq__(self, other):
+        return isinstance(other, Res) and (self.ok, self.v) == (other.ok, other.v)
+
+    def __hash__(self):
+        return hash((self.ok, self.v if not isinstance(self.v, _Unknown) else "?"))
+
+    def __repr__(self):
+        return "%s(%r)" % ("Ok" if self.ok else "Err", self.v)
+
+
+def _known(x):
+    """No unknown payload anywhere inside a value."""
+    if x is None or isinstance(x, _Unknown):
+        return False
+    if isinstance(x, tuple):
+        return all(_known(y) for y in x)
+    if isinstance(x, Res):
+        return _known(x.v)
+    return True
+
+
+def _comparable(x, y):
+    return _known(x) and _known(y) and type(x) is type(y) and not isinstance(x, Res)
+
+
+def _payload(x):
+    return UNK if x is None else x
+
+
+_STD = ("core", "std", "alloc")
+
+
 def order_value(t, leaf, facts=None):
     """Value of a term built from order comparisons under a concrete assignment of its leaves, or None when it depends
     on anything else.  `leaf(term)` gives the value of a leaf (an int, or a tuple for an Option: () is None, (x,) is
     Some(x) — Python orders tuples the way Rust orders Options) or None for "not a leaf".  Comparisons by operator, by
     the PartialEq / PartialOrd / Ord methods, three-way `cmp` (as the discriminant of its Ordering: 255 / 0 / 1),
-    `partial_cmp`, the `is_lt` … family, `reverse`, `then`, `min`/`max`, negation and Some/None/Ordering literals are
-    all read; so `a.cmp(&b) == Less`, `a < b`, `!(a >= b)`, `b > a` and `a.cmp(&b).is_lt()` have the same value."""
+    `partial_cmp`, the `is_lt` … family, `reverse`, `then`, `then_with`, `min`/`max`, negation, Some/None/Ok/Err/Ordering
+    literals, the Option / Result / bool combinators of std (by their documented contracts, closures evaluated on the
+    payload) and `?` are all read; so `a.cmp(&b) == Less`, `a < b`, `!(a >= b)`, `b > a`, `a.cmp(&b).is_lt()`,
+    `o.map(|a| a.cmp(&b)) == Some(Less)`, `o.is_some_and(|a| a < b)` and `o.map_or(false, |a| a < b)` have the same value."""
     t = strip_deep(peel_try(t))
     v = leaf(t)
     if v is not None:
@@ -849,9 +900,19 @@ def order_value(t, leaf, facts=None):
             "Eq": lambda x, y: x == y, "Ne": lambda x, y: x != y}
     if k == "bin" and t[1] in cmpf:
         x, y = order_value(t[2], leaf, facts), order_value(t[3], leaf, facts)
-        if x is None or y is None or type(x) is not type(y):
+        if not _comparable(x, y):
             return None
         return int(cmpf[t[1]](x, y))
+    if k == "bin" and t[1] in ("BitAnd", "BitOr", "BitXor"):
+        x, y = order_value(t[2], leaf, facts), order_value(t[3], leaf, facts)
+        if isinstance(x, int) and isinstance(y, int) and x in (0, 1) and y in (0, 1):       # `&` / `|` / `^` of two bools
+            return {"BitAnd": x & y, "BitOr": x | y, "BitXor": x ^ y}[t[1]]
+        return None
+    if k == "bin" and t[1] == "Cmp":
+        x, y = order_value(t[2], leaf, facts), order_value(t[3], leaf, facts)
+        if not _comparable(x, y):
+            return None
+        return 255 if x < y else (0 if x == y else 1)
     if k == "agg":
         if str(t[2]) in _ORD_CODE and str(t[1]).endswith("cmp::Ordering"):
             return _ORD_CODE[str(t[2])]
@@ -859,49 +920,132 @@ def order_value(t, leaf, facts=None):
             if str(t[2]) == "None":
                 return ()
             if str(t[2]) == "Some" and len(t[3]) == 1:
-                x = order_value(t[3][0][1], leaf, facts)
-                return None if x is None else (x,)
+                return (_payload(order_value(t[3][0][1], leaf, facts)),)
+        if str(t[1]).endswith("result::Result") and str(t[2]) in ("Ok", "Err") and len(t[3]) == 1:
+            return Res(str(t[2]) == "Ok", _payload(order_value(t[3][0][1], leaf, facts)))
         return None
     if k == "discr":
         inner = strip_deep(t[1])
         if inner[0] == "call" and (inner[3] or {}).get("name") == "branch" and ((inner[3] or {}).get("trait") or "").endswith("ops::Try") \
                 and len(inner[2]) == 1:
             x = order_value(inner[2][0], leaf, facts)
-            return (0 if len(x) == 1 else 1) if isinstance(x, tuple) else None      # `?` on an Option: Continue iff Some
+            if isinstance(x, tuple):
+                return 0 if len(x) == 1 else 1      # `?` on an Option: Continue iff Some
+            if isinstance(x, Res):
+                return 0 if x.ok else 1             # `?` on a Result: Continue iff Ok
+            return None
         x = order_value(t[1], leaf, facts)
         if isinstance(x, tuple):
             return len(x)               # None = 0, Some = 1
+        if isinstance(x, Res):
+            return 0 if x.ok else 1     # Ok = 0, Err = 1
         return x if isinstance(x, int) else None
-    if k == "field" and str(t[2]) == "0" and t[1][0] == "variant" and str(t[1][2]) == "Some":
+    if k == "field" and str(t[2]) == "0" and t[1][0] == "variant":
         x = order_value(t[1][1], leaf, facts)
-        return x[0] if isinstance(x, tuple) and len(x) == 1 else None
+        vn = str(t[1][2])
+        if vn == "Some":
+            r = x[0] if isinstance(x, tuple) and len(x) == 1 else None
+        elif vn in ("Ok", "Err"):
+            r = x.v if isinstance(x, Res) and x.ok == (vn == "Ok") else None
+        else:
+            r = None
+        return r if _known(r) else None
     if k == "call":
         info = t[3] or {}
         name = info.get("name")
         args = [None if strip_deep(a)[0] == "closure" else order_value(a, leaf, facts) for a in t[2]]
-        clos = [strip_deep(a) for a in t[2] if strip_deep(a)[0] == "closure"]
-        if len(clos) == 1 and args and isinstance(args[0], tuple) and (info.get("krate") in ("core", "std", "alloc") or "option::Option" in (info.get("res") or "")):
-            # std's contract of the Option combinators that take a predicate
-            if name in ("is_some_and", "is_none_or") and len(args) == 2:
-                return int(name == "is_none_or") if not args[0] else closure_value(facts, clos[0], [args[0][0]], leaf)
-            if name == "map_or" and len(args) == 3 and args[1] is not None:
-                return args[1] if not args[0] else closure_value(facts, clos[0], [args[0][0]], leaf)
-            if name == "filter" and len(args) == 2:
-                if not args[0]:
-                    return ()
-                keep = closure_value(facts, clos[0], [args[0][0]], leaf)
-                return None if keep is None else (args[0] if keep else ())
-        if any(a is None for a in args):
+        clos = [strip_deep(a) if strip_deep(a)[0] == "closure" else None for a in t[2]]
+        std = info.get("krate") in _STD or re.search(r"\b(option::Option|result::Result|cmp::Ordering)\b|^bool::", info.get("res") or "") is not None
+        call = lambda i, xs: closure_value(facts, clos[i], xs, leaf)
+        if std and any(c is not None for c in clos) and args and args[0] is not None:
+            # std's contracts of the combinators that take a closure: what comes out for which variant going in
+            r0 = args[0]
+            n = len(args)
+            if isinstance(r0, tuple):
+                has = len(r0) == 1
+                x = [r0[0]] if has else None
+                if name in ("is_some_and", "is_none_or") and n == 2 and clos[1]:
+                    return int(name == "is_none_or") if not has else (call(1, x) if _known(x[0]) else None)
+                if name == "map_or" and n == 3 and clos[2]:
+                    return args[1] if not has else (call(2, x) if _known(x[0]) else None)
+                if name == "map_or_else" and n == 3 and clos[1] and clos[2]:
+                    return call(1, []) if not has else (call(2, x) if _known(x[0]) else None)
+                if name == "filter" and n == 2 and clos[1]:
+                    if not has:
+                        return ()
+                    keep = call(1, x) if _known(x[0]) else None
+                    return None if not isinstance(keep, int) else (r0 if keep else ())
+                if name in ("map", "inspect") and n == 2 and clos[1]:
+                    if not has or name == "inspect":
+                        return r0
+                    return (_payload(call(1, x) if _known(x[0]) else None),)
+                if name == "and_then" and n == 2 and clos[1]:
+                    if not has:
+                        return ()
+                    r = call(1, x) if _known(x[0]) else None
+                    return r if isinstance(r, tuple) else None
+                if name == "or_else" and n == 2 and clos[1]:
+                    if has:
+                        return r0
+                    r = call(1, [])
+                    return r if isinstance(r, tuple) else None
+                if name == "unwrap_or_else" and n == 2 and clos[1]:
+                    r = x[0] if has else call(1, [])
+                    return r if _known(r) else None
+                if name == "ok_or_else" and n == 2 and clos[1]:
+                    return Res(True, x[0]) if has else Res(False, _payload(call(1, [])))
+            if isinstance(r0, Res):
+                x = [r0.v]
+                if name in ("map", "map_err") and n == 2 and clos[1]:
+                    if r0.ok != (name == "map"):
+                        return r0
+                    return Res(r0.ok, _payload(call(1, x) if _known(x[0]) else None))
+                if name in ("inspect", "inspect_err") and n == 2:
+                    return r0
+                if name in ("and_then", "or_else") and n == 2 and clos[1]:
+                    if r0.ok != (name == "and_then"):
+                        return r0
+                    r = call(1, x) if _known(x[0]) else None
+                    return r if isinstance(r, Res) else None
+                if name in ("is_ok_and", "is_err_and") and n == 2 and clos[1]:
+                    if r0.ok != (name == "is_ok_and"):
+                        return 0
+                    return call(1, x) if _known(x[0]) else None
+                if name == "unwrap_or_else" and n == 2 and clos[1]:
+                    r = r0.v if r0.ok else (call(1, x) if _known(x[0]) else None)
+                    return r if _known(r) else None
+                if name == "map_or" and n == 3 and clos[2]:
+                    return args[1] if not r0.ok else (call(2, x) if _known(x[0]) else None)
+            if isinstance(r0, int):
+                if name == "then" and n == 2 and clos[1] and r0 in (0, 1) and (info.get("res") or "").startswith("bool::"):
+                    return (_payload(call(1, [])),) if r0 else ()
+                if name == "then_with" and n == 2 and clos[1] and r0 in (255, 0, 1):
+                    return r0 if r0 != 0 else call(1, [])
             return None
-        if name in ("copied", "cloned", "as_ref", "as_deref", "clone") and len(args) == 1:
+        if any(c is not None for c in clos):
+            return None
+        if name in ("copied", "cloned", "as_ref", "as_deref", "as_mut", "clone", "into", "from", "borrow", "to_owned") and len(args) == 1:
             return args[0]
+        if any(a is None for a in args):
+            # combinators whose result does not depend on the argument that cannot be read
+            if std and len(args) == 2 and isinstance(args[0], tuple) and name in ("ok_or",):
+                return Res(True, args[0][0]) if args[0] else Res(False, UNK)
+            if std and len(args) == 2 and isinstance(args[0], Res) and name in ("expect",) and args[0].ok:
+                return args[0].v if _known(args[0].v) else None
+            if std and len(args) == 2 and isinstance(args[0], tuple) and name in ("expect",) and args[0]:
+                return args[0][0] if _known(args[0][0]) else None
+            return None
         m2 = {"lt": "Lt", "le": "Le", "gt": "Gt", "ge": "Ge", "eq": "Eq", "ne": "Ne"}
-        if name in m2 and len(args) == 2 and type(args[0]) is type(args[1]):
-            return int(cmpf[m2[name]](args[0], args[1]))
-        if name in ("cmp", "partial_cmp") and len(args) == 2 and type(args[0]) is type(args[1]):
+        if name in m2 and len(args) == 2:
+            return int(cmpf[m2[name]](args[0], args[1])) if _comparable(args[0], args[1]) else None
+        if name in ("cmp", "partial_cmp") and len(args) == 2:
+            if not _comparable(args[0], args[1]):
+                return None
             c = 255 if args[0] < args[1] else (0 if args[0] == args[1] else 1)
             return c if name == "cmp" else (c,)
-        if name in ("min", "max") and len(args) == 2 and type(args[0]) is type(args[1]):
+        if name in ("min", "max") and len(args) == 2:
+            if not _comparable(args[0], args[1]):
+                return None
             return min(args) if name == "min" else max(args)
         if len(args) == 1 and isinstance(args[0], int) and args[0] in (255, 0, 1):
             o = {255: -1, 0: 0, 1: 1}[args[0]]
@@ -910,13 +1054,46 @@ def order_value(t, leaf, facts=None):
                 return int(tests[name])
             if name == "reverse":
                 return {255: 1, 0: 0, 1: 255}[args[0]]
-        if name == "then" and len(args) == 2 and all(isinstance(a, int) for a in args):
+        if name == "then" and len(args) == 2 and all(isinstance(a, int) for a in args) and args[0] in (255, 0, 1):
             return args[0] if args[0] != 0 else args[1]
-        if len(args) == 1 and isinstance(args[0], tuple):
-            if name == "is_some":
-                return int(len(args[0]) == 1)
-            if name == "is_none":
-                return int(len(args[0]) == 0)
+        if name == "then_some" and len(args) == 2 and args[0] in (0, 1) and std:
+            return (args[1],) if args[0] else ()
+        if std and isinstance(args[0] if args else None, tuple):
+            o = args[0]
+            if len(args) == 1:
+                if name == "is_some":
+                    return int(len(o) == 1)
+                if name == "is_none":
+                    return int(len(o) == 0)
+                if name in ("unwrap", "unwrap_unchecked") and o:
+                    return o[0] if _known(o[0]) else None
+                if name == "flatten":
+                    return o[0] if o and isinstance(o[0], tuple) else (() if not o else None)
+            if len(args) == 2:
+                if name == "unwrap_or":
+                    r = o[0] if o else args[1]
+                    return r if _known(r) else None
+                if name == "ok_or":
+                    return Res(True, o[0]) if o else Res(False, args[1])
+                if name in ("or", "and", "xor") and isinstance(args[1], tuple):
+                    p = args[1]
+                    return {"or": o if o else p, "and": p if o else (), "xor": (o if not p else ()) if o else p}[name]
+                if name in ("is_some_and", "is_none_or", "map", "and_then", "filter"):
+                    return None                 # a function item as the predicate: not read
+            if len(args) == 3 and name == "map_or":
+                return None
+        if std and isinstance(args[0] if args else None, Res):
+            r0 = args[0]
+            if len(args) == 1:
+                if name in ("is_ok", "is_err"):
+                    return int(r0.ok == (name == "is_ok"))
+                if name in ("ok", "err"):
+                    return (r0.v,) if r0.ok == (name == "ok") else ()
+                if name in ("unwrap", "unwrap_unchecked") and r0.ok:
+                    return r0.v if _known(r0.v) else None
+            if len(args) == 2 and name == "unwrap_or":
+                r = r0.v if r0.ok else args[1]
+                return r if _known(r) else None
     return None
 
 
@@ -1035,7 +1212,7 @@ def closure_value(facts, ct, args, outer_leaf):
                 except (TypeError, ValueError, IndexError):
                     pass
                 break
-    params = {cb.local_name(i + 2): a for i, a in enumerate(args) if cb.arg_count >= i + 2 and cb.local_name(i + 2)}
+    params = {(cb.local_name(i + 2) or "_%d" % (i + 2)): a for i, a in enumerate(args) if cb.arg_count >= i + 2}
 
     def leaf(t):
         if t[0] == "param" and t[1] in params:
